@@ -21,6 +21,8 @@ Accepts(ev) ==
          /\ G("C17", "LegalOperation", ev.skipped = 1 \/ Legal(kind, op, s))
          /\ G("SPEC", "SpecificationAgreesWithStandardType", ev.ref = st)
          /\ G("C17", "StateAndValueAgreeWithStandardSemantics", ev.obs = st)
+         \* beyond the listed property (NOTE only; kept last so that it cannot hide a C17 clause of the same event)
+         /\ G("EXTRA", "OptionalComparisonOperatorsAgreeWithStd", Has(ev, "cmp") => ev.cmp = ev.refcmp)
     [] ev.e = "TupleObs" ->
          /\ G("C17", "TupleGetPreservesOrderAndValues", ev.got = ev.vals)
          /\ G("C17", "TupleApplyPassesElementsInOrder", ev.applied = ev.vals)
